@@ -6,7 +6,7 @@ from vlib import bip39
 ID = "C02"
 RULE = ("op mn.seed <phrase> <passphrase>: all five phrase lengths, layout variants of the phrase, passphrases: empty, ASCII, "
         "precomposed/decomposed pairs, full-width/ASCII pairs, ligatures, Hangul, combining marks in non-canonical order, astral plane; "
-        "code points restricted to those assigned in Unicode 14.0 (python unicodedata) — the crate ships Unicode 16 tables; "
+        "every code point with an NFKD mapping or non-zero combining class alone between ASCII letters (all below U+0250, stratified sample above; thorough: all); code points restricted to those assigned in Unicode 14.0 (python unicodedata) — the crate ships Unicode 16 tables; "
         "NFKD-equivalent pairs must give equal seeds (extra check); the repo's four seed vectors; "
         "non-trivial = distinct (words, passphrase); judge = BIP-39 PBKDF2 from the standard with the NFKD table of python's unicodedata")
 EXHAUSTIVE_SWEEPS = {"quick": [], "thorough": []}
@@ -58,6 +58,31 @@ def gen(rng, tier):
             alt = unicodedata.normalize(form, pw)
             if alt != pw:
                 cases.append(Case("mn.seed %s %s" % (hx(" ".join(ws)), hx(alt)), tags=("nfkd-equivalent",), meta=meta))
+    # every code point with a non-trivial NFKD mapping or a non-zero combining class, ALONE between ASCII
+    # letters (so that no other character of the passphrase can mask a fast path): all of them below
+    # U+0250 and a stratified sample of the rest (thorough: all 6.7k of the table)
+    import os
+    from vlib import core
+    table = []
+    with open(os.path.join(core.VERIF, "data", "nfkd_table.tsv")) as f:
+        for line in f:
+            if line.startswith("#") or not line.strip():
+                continue
+            cp = int(line.split("\t")[0])
+            table.append(cp)
+    low = [cp for cp in table if cp < 0x250]
+    rest = [cp for cp in table if cp >= 0x250]
+    pick = low + (rest if tier == "thorough" else [rest[i] for i in range(0, len(rest), max(1, len(rest) // 350))])
+    ws12 = bip39.rand_phrase(rng, 12)
+    for cp in pick:
+        ch = chr(cp)
+        for pw in ("a" + ch + "b", ch):
+            cases.append(Case("mn.seed %s %s" % (hx(" ".join(ws12)), hx(pw)), tags=("single-char", "block:%02x" % (cp >> 8) if cp < 0x1000 else "block:high")))
+    # Hangul syllables (arithmetic decomposition) and ASCII-only / Latin-1-only mixes
+    for cp in [0xAC00, 0xAC01, 0xD7A3, 0xB098, 0xC548]:
+        cases.append(Case("mn.seed %s %s" % (hx(" ".join(ws12)), hx("x" + chr(cp))), tags=("single-char", "hangul")))
+    for pw in ["5µm²", "a b", "½ ¾ ¼", "ª º ¹ ³", "¨ ¯ ´ ¸", "plain ascii", "ÿ", "¿¡"]:
+        cases.append(Case("mn.seed %s %s" % (hx(" ".join(ws12)), hx(pw)), tags=("latin1",)))
     return cases
 
 
